@@ -23,7 +23,7 @@ for d in sorted(os.listdir(f"{V}/seeded")):
         except Exception:
             pass
         jobs.append((f"seeded/{d}", f"{V}/seeded/{d}/patch.diff", ids))
-    elif re.match(r"[RS]\d\d-[A-Z]$", d) and f"seeded/{d}".startswith(only):
+    elif re.match(r"[RSG]\d\d-[A-Z]$", d) and f"seeded/{d}".startswith(only):
         # region-based seeds (round 4): the properties they break are listed in meta.json
         meta = json.load(open(f"{V}/seeded/{d}/meta.json"))
         jobs.append((f"seeded/{d}", f"{V}/seeded/{d}/patch.diff", meta["checks"]))
